@@ -13,7 +13,7 @@ CONSTANT FIXV   \* [peval, dupout, circuit]: which repairs of validate() are in 
 
 OwnC == {"ok", "eq_n", "far"}
 PeC == {"ok", "eq_n", "far"}
-PoC == {"ok", "unsorted", "empty", "has_n", "has_far", "dup", "dup_unsorted"}
+PoC == {"ok", "unsorted", "empty", "has_n", "has_far", "has_n_first", "has_far_mid", "dup", "dup_unsorted"}
 InC == {"ok", "minus1", "plus1", "none"}
 CircC == {"ok", "badreg", "badoutreg", "read_before_write", "noinputs", "nooutputs", "input_wrong_reg",
           "ands_minus", "ands_plus", "input_after_gate", "surplus_input", "missing_input",
@@ -37,7 +37,7 @@ Table == { r \in Rows : r.x < r.n /\ Deviations(r) <= 1 }
 
 \* ---- what C18 demands ----------------------------------------------------
 MustRejectUpFront(r) ==
-  \/ r.own # "ok" \/ r.pe # "ok" \/ r.po \in {"empty", "has_n", "has_far"} \/ r.inp # "ok" \/ LibInvalid(r.circ)
+  \/ r.own # "ok" \/ r.pe # "ok" \/ r.po \in {"empty", "has_n", "has_far", "has_n_first", "has_far_mid"} \/ r.inp # "ok" \/ LibInvalid(r.circ)
 RejectOrSet(r) == r.po \in {"dup", "dup_unsorted"}
 NoPanicOnly(r) == Inconsistent(r.circ)
 MustRunCorrectly(r) == Deviations(r) = 0 \/ r.po = "unsorted"
@@ -49,7 +49,7 @@ CodeRejects(r) ==
   \/ LibInvalid(r.circ)
   \/ r.own # "ok"
   \/ r.inp # "ok"
-  \/ r.po \in {"empty", "has_n", "has_far"}
+  \/ r.po \in {"empty", "has_n", "has_far", "has_n_first", "has_far_mid"}
   \/ FIXV.peval /\ r.pe # "ok"
   \/ FIXV.dupout /\ r.po \in {"dup", "dup_unsorted"}
   \/ FIXV.circuit /\ Inconsistent(r.circ)
